@@ -35,6 +35,19 @@ def handle (op : String) (args : List String) : Option String :=
         | .panic _ => "panic"
       | _, _ => "bad-op"
     | _ => "bad-op"
+  | "load_zero" =>
+    -- load_zero <k> <hex> : completion order of the deferred streams chosen through hook H2
+    some <| match args with
+    | [k, h] =>
+      match k.toNat?, bytesOfHex h with
+      | some k, some bs =>
+        match loadDocOrd2 none (some k) bs with
+        | .ok l => showLoaded l
+        | .err "ext" => "ext"
+        | .err _ => "err"
+        | .panic _ => "panic"
+      | _, _ => "bad-op"
+    | _ => "bad-op"
   | _ => none
 
 end Lopdf.Driver.C02
